@@ -8,7 +8,7 @@ func init() {
 	}
 	register(&Property{
 		ID:          "C05",
-		Explanation: "RA over the stable compiler's scheduler and the shared symbol table: executor.results and result.blockedOn are touched only under their mutex; executor/result fields read without locks are never assigned after construction; descriptorProtoIsCustom is written only inside its sync.Once. RB: result.res/err are written only in fail/complete (write; close(ready)) and every other read is dominated by a receive from the same result's ready channel. RC5: Compile returns descriptors indexed by request position only after the handler verdict. RC1/RC2/RC8 (shared with C06): the blocked-on publication and cycle-check ordering in task.asFile, whose violation makes the outcome (cycle error vs. hang) depend on the schedule and on the order of the requested files. RC10: requested files are registered in one critical section. RI/RJ: no map-order-, clock- or random-dependent value is produced in functions reachable from Compiler.Compile except through the listed order-insensitive idioms. RA4: insert-if-absent writes of the symbol table happen in the critical section that validated them. RC5b: no method of task reads the executor's shared handler; a task's verdict comes from its own sub-handler.",
+		Explanation: "RA over the stable compiler's scheduler and the shared symbol table: executor.results and result.blockedOn are touched only under their mutex; executor/result fields read without locks are never assigned after construction; descriptorProtoIsCustom is written only inside its sync.Once. RB: result.res/err are written only in fail/complete (write; close(ready)) and every other read is dominated by a receive from the same result's ready channel. RC5: Compile returns descriptors indexed by request position only after the handler verdict. RC1/RC2/RC8 (shared with C06): the blocked-on publication and cycle-check ordering in task.asFile, whose violation makes the outcome (cycle error vs. hang) depend on the schedule and on the order of the requested files. RC10: requested files are registered in one critical section. RI/RJ: no map-order-, clock- or random-dependent value is produced in functions reachable from Compiler.Compile except through the listed order-insensitive idioms. RA4: insert-if-absent writes of the symbol table happen in the critical section that validated them. RC5b: a method of task asks the executor's shared handler for its verdict (Error()) only where it has, on every path, just reported to it; every other verdict comes from the task's own sub-handler.",
 		NotDecided:  "that linking a file is a pure function of its inputs beyond those sources; order of reporter callbacks (unconstrained by the property)",
 		Rules:       []func(*World){raCompiler, rbCompiler, rcCompile, rcAsFile, rc5bTaskUsesOwnHandler, raSymbols, ra4Symbols, rc10ExplicitRegistration, riCompile},
 	})
